@@ -98,7 +98,7 @@ CHECKS = {
         'for one (circuit, root) must agree after normalising instance suffixes and declaration order, and a generation that raises must also raise for a fresh copy of the circuit.',
    note='Trusted: the snapshot covers children, ports, wires (values, sources, sinks), leaf attributes and Wire.prepared; Div/Mod/SignedDiv blocks are excluded (documented random output on zero divisor).',
    ref='DESIGN.md section 4 C19'),
- 'C11': dict(level='fault_enumeration', engine='construction-plan executor with an independent name/driver model (vlib/c11*.py)',
+ 'C11': dict(level='exploration', engine='construction-plan executor with an independent name/driver model (vlib/c11*.py)',
    technique='runtime reference-model monitor over generated construction sequences with one injected fault (20 fault kinds), plus integrity check over catalogue blocks with single-driver faults',
    text='Generated construction plans (wire creation, instantiation, rename, reparent, interface expansion) are executed on the real library in lockstep with an independent model of names and '
         'drivers; the faulting call must raise and the earlier driver/child/wire must stay in place (compared by identity), fault-free plans must not raise. checkIntegrity is run on every catalogue block '
